@@ -23,7 +23,7 @@ theorem C01_match_genuine (env : Env) (r : Router) (h : Reachable r) (path : Byt
   | some x =>
     obtain ⟨i, ps⟩ := x
     rw [hw] at hm
-    simp only [Option.map_some, Option.some.injEq] at hm
+    simp only [Option.map_some, Option.some.injEq, toMatch] at hm
     obtain ⟨rt, hr, hi, vs, hf, hps⟩ := refWalk_sound env _ _ _ _ _ _ hw
     subst hm
     exact ⟨rt, hr, by rw [hi], by rw [hi], by rw [hi], by simpa [hps] using hf⟩
